@@ -54,4 +54,22 @@ theorem nodup_names_merge {existing attrs : List Attr} (he : (existing.map (·.n
     obtain ⟨a, ha1, hn2⟩ := List.mem_map.mp hy
     exact (mem_missingAttrs.mp ha1).2 e1 he1 (hn1.trans hn2.symm)
 
+/-- the contract's clause (distinct expanded names) implies distinct `QualName`s -/
+theorem attrNamesNodup_of_keys : ∀ (as : List Attr), Dom.attrKeysNodup as = true → Dom.attrNamesNodup as = true := by
+  intro as
+  induction as with
+  | nil => intro _; rfl
+  | cons a t ih =>
+    intro h
+    simp only [Dom.attrKeysNodup, Bool.and_eq_true, Bool.not_eq_true'] at h
+    simp only [Dom.attrNamesNodup, Bool.and_eq_true, Bool.not_eq_true']
+    refine ⟨?_, ih h.2⟩
+    cases hc : (t.map (·.name)).contains a.name with
+    | false => rfl
+    | true =>
+      obtain ⟨b, hb, hn⟩ := List.mem_map.mp (List.contains_iff_mem.mp hc)
+      have : (t.map Dom.attrKey).contains (Dom.attrKey a) = true :=
+        List.contains_iff_mem.mpr (List.mem_map.mpr ⟨b, hb, by simp [Dom.attrKey, hn]⟩)
+      rw [h.1] at this; cases this
+
 end H5V.Lemmas.Dom
